@@ -68,7 +68,9 @@ TRUSTED = [
     "classes x 4 positions, 2 execution classes, 12 GraphQLResult shapes, 17 requests x 2 entry points over the 4 abort sites) and required to match the table's prediction everywhere",
     "error objects are values in the Lean model: sharing/mutation of one exception object between registrations (X6, cached coercion failures) is exercised by the oracle (null sites computed without looking at the errors) and the correspondence, not proved",
     "highlight_location (the text after the message of a syntax error) is opaque in the model: only its totality for positions <= len is exercised",
-    "stage outcomes (error positions, paths, extensions, data) are observed through the real stage functions; scalar serialisers are exercised, not modelled",
+    "stage outcomes (error positions, paths, extensions, data) are observed through the real stage functions; scalar serialisers are exercised, not modelled; "
+    "the hypotheses response_wellformed_pipeline keeps about them (LaterOk: error nodes start at tokens of the submitted text; error classes of the stage "
+    "record) are checked on the real errors of every request submitted as text (corr:stage-hypothesis:*)",
 ]
 
 GRAPHQL = REPO / "src/py_gql/_graphql.py"
@@ -726,6 +728,9 @@ def check_case(ctx, case, pending):
                 if ans.get("tree_ok") is False:
                     ctx.fail("corr:tree-not-admissible", "hypothesis treeOkFields of executed_response_wellformed does not hold on a recorded tree",
                              dict(detail, tree=tree), kind="correspondence")
+                if ans.get("typed") is False:
+                    ctx.fail("corr:tree-not-typed", "hypothesis typedFields of response_wellformed_pipeline_total does not hold on a tree recorded from a request "
+                             "the real executor answered", dict(detail, tree=tree), kind="correspondence")
                 if ans.get("keys_distinct") is False:
                     ctx.fail("corr:response-keys-not-distinct", "hypothesis RootKeysDistinct of exactly_one_error_per_site does not hold on a recorded tree",
                              dict(detail, tree=tree), kind="correspondence")
